@@ -100,10 +100,30 @@ let c10_oracles (ops : string list) (impl : res list list list) : (string * bool
   let connected = ref false and connect_ok = ref true in
   let play_active = ref false and media_ok = ref true in
   let publishing = ref false and pub_requested = ref false and pubmedia_ok = ref true in
+  (* what the client itself announced on the wire (its packets read with the specification decoder): 0 = idle, 1 = play requested or
+     running, 2 = publish requested or running; stopping must emit a deleteStream exactly from the matching activity *)
+  let peer = new_peer () and activity = ref 0 and stop_ok = ref true in
+  let command_names (all : res list) : string list =
+    List.concat_map (function
+      | Pkt (_, b) ->
+        (match peer_feed peer b with
+         | Some ms -> List.filter_map (fun (m : Chunk.msg) ->
+             match Messages.of_payload m.Chunk.m_tid m.Chunk.m_data with
+             | Base.Ok (Messages.MAmf0Command (name, _, _, _)) -> Some (String.concat "" (List.map (fun b -> String.make 1 (Char.chr (int_of_n b land 255))) name))
+             | _ -> None) ms
+         | None -> [])
+      | _ -> []) all in
   (try List.iter2 (fun op calls ->
     let t = List.filter (fun s -> s <> "") (String.split_on_char ' ' op) in
     let all = List.concat calls in
     let has_packet = List.exists (function Pkt _ -> true | _ -> false) all in
+    let names = command_names all in
+    let deleted = List.mem "deleteStream" names in
+    (match t with
+     | "stoppub" :: _ -> if peer.ok && deleted <> (!activity = 2) then stop_ok := false
+     | "stopplay" :: _ -> if peer.ok && deleted <> (!activity = 1) then stop_ok := false
+     | _ -> ());
+    List.iter (fun n -> if n = "play" then activity := 1 else if n = "publish" then activity := 2 else if n = "deleteStream" then activity := 0) names;
     (match t with
      | "connect" :: _ -> if !connected && has_packet then connect_ok := false
      | "play" :: _ -> if has_packet then play_active := true
@@ -113,14 +133,14 @@ let c10_oracles (ops : string list) (impl : res list list list) : (string * bool
      | ("video" | "audio" | "meta") :: _ -> if has_packet && not !publishing then pubmedia_ok := false
      | _ -> ());
     List.iter (function
-      | Other "E:ConnAccepted" -> connected := true
+      | Other "E:ConnAccepted" -> connected := true; activity := 0
       | Other "E:PubAccepted" -> if !pub_requested then publishing := true
       | Other s when starts_with "E:Video:" s || starts_with "E:Audio:" s -> if not !play_active then media_ok := false
       | Other s when starts_with "E:Meta:" s -> if not (!play_active || !pub_requested) then media_ok := false   (* needs an active stream *)
       | _ -> ()) all) ops impl
   with Invalid_argument _ -> ());
   [ "C10.connect_only_when_disconnected", !connect_ok; "C10.media_events_only_while_play_requested_or_running", !media_ok;
-    "C10.publish_media_only_while_publishing", !pubmedia_ok ]
+    "C10.publish_media_only_while_publishing", !pubmedia_ok; "C10.stop_emits_delete_stream_exactly_from_matching_activity", !stop_ok ]
 
 let oracle (toks : string list) (obs : string) : (string * bool) list =
   let pk = J_server.impl_packets obs in
